@@ -161,7 +161,7 @@ def run(ctx):
     if 'A' in ctx.stages:
         cfgp = os.path.join(tlc.BUILD, 'NdnPacketsMC_%s.cfg' % ctx.tier)
         tlc.write_cfg(cfgp, constants={'Scale': scale}, invariants=INVS)
-        r = tlc.run('NdnPacketsMC', cfgp, workers=ctx.pick(4, 16))
+        r = tlc.run('NdnPacketsMC', cfgp, workers=ctx.pick(4, int(os.environ.get('VERIF_WORKERS', '16'))))
         ctx.add_tlc('NdnPacketsMC Scale=%d' % scale, r)
         if r.violated:
             ctx.violation('C01/spec/%s' % r.violated, 'TLC: %s violated in NdnPacketsMC' % r.violated, {'trace': r.errtrace})
